@@ -1099,8 +1099,9 @@ def _close(x, y, rtol, atol):
     """|x - y| <= atol + rtol*|y| over the reals, literal tolerances"""
     x, y = SC.lift(x), SC.lift(y)
     d = x - y
-    if explore.EXP.exact_close:
-        # "reals, not floats": closeness tests are read as exact equality (tolerance 0)
+    if explore.EXP.exact_close and not (x.is_const() and y.is_const()):
+        # "reals, not floats": closeness tests on SYMBOLIC values are read as exact equality (tolerance 0); two concrete
+        # numbers are compared with the literal tolerances, as the library does
         return f_and(f_cmp(d.re, "=="), f_cmp(d.im, "=="))
     at, rt = Fraction(atol), Fraction(rtol)
     if y.is_const():
